@@ -516,3 +516,70 @@ fn serde_roundtrip() {
         }
     }
 }
+
+// ---- C10 / C20: the command line tool itself (V:cli:*) ----
+/// V:cli:analyse_state:* / V:cli:main:* — the written structure is what was asked for, it is the best of the replicas run
+/// (more replicas never score lower), and the logged score is its score
+#[test]
+fn cli_pipeline() {
+    use packing::{LJShape2, MolecularShape2, LineShape, PackedState, PotentialState};
+    let dir = std::env::temp_dir().join(format!("vx-cli-{}", std::process::id()));
+    std::fs::create_dir_all(&dir).unwrap();
+    let mult = |g: &str| match g { "p1" => 1, "p2" | "p1m1" | "p1g1" => 2, _ => 4 };
+    let mut r = rng();
+    let groups = ["p1", "p2", "p1m1", "p1g1", "p2mm", "p2mg", "p2gg"];
+    let result = std::panic::catch_unwind(std::panic::AssertUnwindSafe(|| {
+        for case in 0..14 {
+            let g = groups[case % 7];
+            let kind = r.gen_range(0, 5);
+            let (radius, angle, distance) = (0.5 + 0.1 * r.gen_range(0, 5) as f64, 90. + 10. * r.gen_range(0, 7) as f64, 0.8 + 0.1 * r.gen_range(0, 8) as f64);
+            let sides = r.gen_range(3, 7);
+            let (rs, as_, ds, ss) = (radius.to_string(), angle.to_string(), distance.to_string(), sides.to_string());
+            let (pot, sub): (&str, Vec<&str>) = match kind {
+                0 => ("Hard", vec!["circle"]), 1 => ("LJ", vec!["circle"]),
+                2 => ("Hard", vec!["trimer", "--radius", &rs, "--angle", &as_, "--distance", &ds]),
+                3 => ("LJ", vec!["trimer", "--radius", &rs, "--angle", &as_, "--distance", &ds]),
+                _ => ("Hard", vec!["polygon", "--sides", &ss]),
+            };
+            let mut best_prev: Option<f64> = None;
+            for &n in [1u64, 2, 4].iter() {
+                let ns = n.to_string();
+                let mut args = vec!["-v", "--replications", &ns, "--steps", "400", "--inner-steps", "100", "--potential", pot, g];
+                // subcommand comes last; --outfile is added by run_cli before it would be wrong, so place it through args order
+                let (ok, log, logged, out) = {
+                    let mut a = args.clone(); a.push("--outfile"); let outp = dir.join(format!("c{}_{}", case, n)); let outs = outp.to_string_lossy().to_string();
+                    let mut cmd = std::process::Command::new(env!("CARGO_BIN_EXE_packing"));
+                    cmd.args(&a).arg(&outs).args(&sub);
+                    let o = cmd.output().expect("the packing binary runs");
+                    let log = String::from_utf8_lossy(&o.stderr).to_string() + &String::from_utf8_lossy(&o.stdout);
+                    let logged = log.lines().filter_map(|l| l.split("Final score: ").nth(1)).filter_map(|s| s.trim().parse::<f64>().ok()).last();
+                    (o.status.success(), log, logged, outp)
+                };
+                args.clear();
+                let what = format!("packing --replications {} --steps 400 --inner-steps 100 --potential {} {} --outfile <f> {}", n, pot, g, sub.join(" "));
+                assert!(ok, "WITNESS `{}` exits with an error: {}", what, log.lines().last().unwrap_or(""));
+                let json = std::fs::read_to_string(out.with_extension("json")).unwrap_or_else(|_| panic!("WITNESS `{}` exits with status 0 but wrote no JSON file", what));
+                assert!(out.with_extension("svg").exists(), "WITNESS `{}` exits with status 0 but wrote no SVG file", what);
+                // what was asked for
+                let (name, copies, shape_dbg, want_dbg, score): (String, usize, String, String, Option<f64>) = match kind {
+                    0 | 2 => { let s: PackedState<MolecularShape2> = serde_json::from_str(&json).unwrap_or_else(|e| panic!("WITNESS `{}` wrote JSON that is not the requested kind of state: {}", what, e));
+                               (s.wallpaper.name.clone(), s.total_shapes(), format!("{:?}", s.shape), format!("{:?}", if kind == 0 { MolecularShape2::circle() } else { MolecularShape2::from_trimer(radius, angle, distance) }), s.score()) }
+                    1 | 3 => { let s: PotentialState<LJShape2> = serde_json::from_str(&json).unwrap_or_else(|e| panic!("WITNESS `{}` wrote JSON that is not the requested kind of state: {}", what, e));
+                               (s.wallpaper.name.clone(), s.total_shapes(), format!("{:?}", s.shape), format!("{:?}", if kind == 1 { LJShape2::circle() } else { LJShape2::from_trimer(radius, angle, distance) }), s.score()) }
+                    _ => { let s: PackedState<LineShape> = serde_json::from_str(&json).unwrap_or_else(|e| panic!("WITNESS `{}` wrote JSON that is not the requested kind of state: {}", what, e));
+                           (s.wallpaper.name.clone(), s.total_shapes(), format!("{:?}", s.shape), format!("{:?}", LineShape::polygon(sides).unwrap()), s.score()) }
+                };
+                assert!(name == g, "WITNESS `{}` wrote a structure of group {}", what, name);
+                assert!(copies == mult(g), "WITNESS `{}` wrote a structure with {} copies, the group has {}", what, copies, mult(g));
+                if let Err(e) = debug_close(&want_dbg, &shape_dbg) { panic!("WITNESS `{}` wrote a structure of another shape: {}", what, e); }
+                let sc = score.unwrap_or_else(|| panic!("WITNESS `{}` wrote a structure without a score", what));
+                let lg = logged.unwrap_or_else(|| panic!("WITNESS `{}` logged no final score", what));
+                assert!((sc - lg).abs() <= 1e-9 * sc.abs().max(1.), "WITNESS `{}` logged the final score {} but the written structure scores {}", what, lg, sc);
+                if let Some(p) = best_prev { assert!(sc >= p - 1e-12 * p.abs().max(1.), "WITNESS `{}` scores {} but fewer replications scored {}", what, sc, p); }
+                best_prev = Some(sc);
+            }
+        }
+    }));
+    let _ = std::fs::remove_dir_all(&dir);
+    if let Err(e) = result { std::panic::resume_unwind(e); }
+}
